@@ -7,7 +7,7 @@ Open Scope N_scope.
 (* Eligibility and "never a finished job": whatever any op of any history delivers to a puller
    (immediately from StartPull, or at RunLoop through a hand-off, a retry or after re-queues) is
    not done at delivery time and belongs to a requested channel (or none was requested). *)
-Theorem C17_delivered_eligible_and_unfinished : forall h o c chs j,
+Theorem C17_delivered_eligible_and_unfinished : forall h o c chs j, nodrop h = true ->
   In (ODeliver c chs j) (snd (step (run h init) o)) ->
   j_done j = false /\ (chs = [] \/ mem (j_chan j) chs = true).
 Proof. exact delivered_ok. Qed.
@@ -15,7 +15,7 @@ Print Assumptions C17_delivered_eligible_and_unfinished.
 
 (* Finality: once a job is done in a reachable state, no continuation (finish, kill, timeout,
    re-add, disconnects, ...) changes done / error / result. *)
-Theorem C17_first_outcome_wins : forall h1 h2 x j,
+Theorem C17_first_outcome_wins : forall h1 h2 x j, nodrop h1 = true -> nodrop h2 = true ->
   getjob (s_jobs (run h1 init)) x = Some j -> j_done j = true ->
   exists j', getjob (s_jobs (run h2 (run h1 init))) x = Some j' /\
              j_done j' = true /\ j_err j' = j_err j /\ j_res j' = j_res j.
@@ -43,6 +43,7 @@ Print Assumptions C17_readd_after_kill_is_new.
 Theorem C17_wait_done_immediate : forall s c i ser j,
   is_idle c s = true -> id_lookup (s_ids s) i = Some ser -> getjob (s_jobs s) ser = Some j -> j_done j = true ->
   done_pending ser (s_hub s) = false ->     (* no finish notification of this job still queued in the hub; after a restart s_hub = [] *)
+  j_drop j = false ->                       (* nobody called rpc_qdrop on it (then its id is forgotten as well: wait_done_dropped) *)
   step s (Wait c i) = (s, [OReleased c j]).
 Proof. exact wait_done_immediate. Qed.
 Print Assumptions C17_wait_done_immediate.
